@@ -300,6 +300,19 @@ def _last_def(df_tree, name):
     return f
 
 
+def _is_dict_delegation(s) -> bool:
+    """if <...> isinstance(exprs[0], dict): return self.groupBy().agg(exprs[0])"""
+    if not (isinstance(s, ast.If) and not s.orelse and len(s.body) == 1 and isinstance(s.body[0], ast.Return)):
+        return False
+    tests = [n for n in ast.walk(s.test) if isinstance(n, ast.Call) and dotted(n.func) == "isinstance"
+             and len(n.args) == 2 and dotted(n.args[1]) == "dict"]
+    r = s.body[0].value
+    ok = (isinstance(r, ast.Call) and isinstance(r.func, ast.Attribute) and r.func.attr == "agg"
+          and isinstance(r.func.value, ast.Call) and dotted(r.func.value.func) == "self.groupBy" and not r.func.value.args
+          and len(r.args) == 1 and isinstance(r.args[0], ast.Subscript) and dotted(r.args[0].value) == "exprs")
+    return bool(tests) and ok
+
+
 def dfagg_shape(df_tree):
     f = _last_def(df_tree, "agg")
     body = _body(f)
@@ -319,6 +332,8 @@ def dfagg_shape(df_tree):
         raise Untranslatable("DataFrame.agg: cols is not self._ensure_and_normalize_cols(exprs)")
     for s in body[:-1]:
         if isinstance(s, ast.Assign) and dotted(s.targets[0]) == "cols":
+            continue
+        if _is_dict_delegation(s):      # the repair of C06/DataFrame.agg-dict-raises
             continue
         if isinstance(s, ast.Expr) and isinstance(s.value, ast.Call) and dotted(s.value.func) == "self._update_display_name_mapping":
             continue
